@@ -206,7 +206,7 @@ def prover_pieces():
 
 UNITS["prove"] = {
     "prelude": PRELUDE_ALL,
-    "contracts": ["ctors.vc", "gens.vc", "transcripts.vc", "nonce.vc", "commit.vc", "prove_safety.vc", "prove_structure.vc"],
+    "contracts": ["ctors.vc", "gens.vc", "transcripts.vc", "nonce.vc", "commit.vc", "prove_safety.vc", "prove_structure.vc", "prove_rng.vc"],
     "pieces": prover_pieces(),
     "safety": {"*": ["C01", "C06"]},
     "rlimit": 150,
